@@ -10,17 +10,20 @@
   whose root is named").  What is proved is about this abstraction of the acquisition order — not about the Rust.
 
   * `pager_lock_never_held_across_latch_wait`  no thread ever waits for a latch while it holds the pager lock
-  * `readers_only_deadlock_free`                scans (also of single-page tables), searches, descents: never a deadlock
+  * `readers_only_deadlock_free`                scans (also of one-page tables), searches, descents: never a deadlock
   * `writers_only_deadlock_free`                any inserts/updates/removes with any rebalancing on any trees: never
-  * `reader_writer_deadlock_free_multilevel`    readers ∥ writers: never, PROVIDED no scan re-latches a root, i.e. every
-                                                scanned table has more than one page.  In particular the suspected
-                                                "leaf scan vs. sibling rebalance" cycle does not exist: the scan keeps the
-                                                root read-latched, the writer needs the root write-latched first.
-  * `reader_writer_root_deadlock_witness`       a scan of a ONE-page table ∥ one writer of that table: reachable state with
-                                                no enabled step (second read latch of the scanning thread queued behind the
-                                                parked writer).  Observed on the real code: KF-C14-scan-relatch-deadlock.
+  * `reader_writer_deadlock_free`               readers ∥ writers, any mix, any trees, any rebalancing order: never (for the
+                                                latch protocol of the repaired code, `Defects.none`).  In particular the
+                                                suspected "leaf scan vs. sibling rebalance" cycle does not exist: the scan
+                                                keeps the root read-latched, the writer needs the root write-latched first.
+  * `reader_writer_deadlock_free_any_defects`   the same with the shipped read latch, PROVIDED no scan re-latches a root
+                                                (every scanned table has more than one page)
+  * `readLatchQueuesBehindWriter_witness`       shipped read latch: a scan of a ONE-page table ∥ one writer of that table
+                                                reaches a state with no enabled step (the second read latch of the scanning
+                                                thread queues behind the parked writer).  Observed on the real code and
+                                                repaired (`fix:` ReadLatch::new uses read_arc_recursive).
   * `flush_writer_deadlock_witness`             `Database::flush` ∥ one writer: `Pager::flush` write-latches pages while it
-                                                holds the pager lock.
+                                                holds the pager lock (not one of the statement shapes).
 
   **Histories** (`Model/Serial.lean`): `checkSerialSI_sound`, `checkSerial_sound` — what the judge's `ok` certifies.
 -/
@@ -57,11 +60,11 @@ def TreeOp.isWrite : TreeOp → Bool
   | .write _ _ _ => true
   | _ => false
 
-/-- tree-shape hypothesis: the named pages belong to the tree of the named root (`rootOf p` = root of `p`'s tree); a
-    scan's leaves are not the root (the table has more than one page) -/
-def TreeOp.wf (rootOf : Nat → Nat) : TreeOp → Bool
+/-- tree-shape hypothesis: the named pages belong to the tree of the named root (`rootOf p` = root of `p`'s tree); with
+    the shipped read latch (`D.readLatchQueuesBehindWriter`) a scan's leaves must moreover not be the root -/
+def TreeOp.wf (D : Defects) (rootOf : Nat → Nat) : TreeOp → Bool
   | .descent _ => true
-  | .scan r _ leaves => leavesIn rootOf r leaves
+  | .scan r _ leaves => leavesIn D rootOf r leaves
   | .search r path => pathIn rootOf r path
   | .write r path bal => writeIn rootOf r path bal
 
@@ -85,8 +88,8 @@ theorem shapes_release_pager_before_waiting : ∀ ops : List TreeOp, pagerOk fal
 
 /-- **The pager lock is never held across a latch wait.**  In every reachable state of any number of threads running any
     tree operations, a thread that is at a latch request (parked or about to park) does not hold the pager lock. -/
-theorem pager_lock_never_held_across_latch_wait (threads : List (List TreeOp)) (s : State)
-    (hr : Reachable (init (threads.map threadProg)) s) (t : Thread) (ht : t ∈ s) :
+theorem pager_lock_never_held_across_latch_wait (D : Defects) (threads : List (List TreeOp)) (s : State)
+    (hr : Reachable D (init (threads.map threadProg)) s) (t : Thread) (ht : t ∈ s) :
     (t.waiting = true → t.pager = false) ∧ (∀ p m rest, t.prog = .acq p m :: rest → t.pager = false) := by
   have h0 : ∀ pr ∈ threads.map threadProg, pagerOk false pr = true := by
     intro pr hpr
@@ -124,9 +127,9 @@ theorem noW_threadProg : ∀ ops : List TreeOp, (∀ op ∈ ops, op.isRead = tru
 
 /-- **Readers only.**  Any number of threads that only read (scans — of one-page tables too —, point lookups, descents)
     on any trees: every reachable state in which some thread has work left has an enabled step. -/
-theorem readers_only_deadlock_free (threads : List (List TreeOp))
+theorem readers_only_deadlock_free (D : Defects) (threads : List (List TreeOp))
     (hread : ∀ th ∈ threads, ∀ op ∈ th, op.isRead = true)
-    (s : State) (hr : Reachable (init (threads.map threadProg)) s) : deadlocked s = false := by
+    (s : State) (hr : Reachable D (init (threads.map threadProg)) s) : deadlocked D s = false := by
   apply readers_only_no_deadlock _ _ hr
   · intro pr hpr
     obtain ⟨ops, _, rfl⟩ := List.mem_map.1 hpr
@@ -135,40 +138,47 @@ theorem readers_only_deadlock_free (threads : List (List TreeOp))
     obtain ⟨ops, hops, rfl⟩ := List.mem_map.1 hpr
     exact noW_threadProg ops (hread ops hops)
 
-theorem guarded_instrs {rootOf : Nat → Nat} (op : TreeOp) (h : op.wf rootOf = true) {rest : List Instr}
-    (hrest : guarded rootOf [] false rest = true) : guarded rootOf [] false (op.instrs ++ rest) = true := by
+theorem guarded_instrs {D : Defects} {rootOf : Nat → Nat} (op : TreeOp) (h : op.wf D rootOf = true) {rest : List Instr}
+    (hrest : guarded D rootOf [] false rest = true) : guarded D rootOf [] false (op.instrs ++ rest) = true := by
   cases op with
   | descent ps => exact guarded_readerDescent ps rest hrest
   | scan r path leaves => exact guarded_readerScan h hrest
   | search r path => exact guarded_readerSearch h hrest
   | write r path bal => exact guarded_writerOp h hrest
 
-theorem guarded_threadProg {rootOf : Nat → Nat} : ∀ ops : List TreeOp, (∀ op ∈ ops, op.wf rootOf = true) →
-    guarded rootOf [] false (threadProg ops) = true
+theorem guarded_threadProg {D : Defects} {rootOf : Nat → Nat} : ∀ ops : List TreeOp, (∀ op ∈ ops, op.wf D rootOf = true) →
+    guarded D rootOf [] false (threadProg ops) = true
   | [], _ => by simp [threadProg, guarded]
   | op :: ops, h => by
     have ih := guarded_threadProg ops (fun o ho => h o (List.mem_cons_of_mem _ ho))
     simp only [threadProg, List.map_cons, List.flatten_cons] at ih ⊢
     exact guarded_instrs op (h op List.mem_cons_self) ih
 
-/-- **Readers and writers together.**  Any number of threads, any mix of scans, lookups, descents and writes with any
-    rebalancing, on any trees — provided the shapes are well-formed, which for a scan includes that its leaves are not
-    the root: no reachable deadlock.  (The order in which a rebalancing writer visits siblings, the parent's neighbours
-    and frontier pages is arbitrary here; it does not matter because every one of those latches is taken under the write
-    latch of the root, which a scan's iterator holds for reading during its whole life.) -/
-theorem reader_writer_deadlock_free_multilevel (rootOf : Nat → Nat) (threads : List (List TreeOp))
-    (hwf : ∀ th ∈ threads, ∀ op ∈ th, op.wf rootOf = true)
-    (s : State) (hr : Reachable (init (threads.map threadProg)) s) : deadlocked s = false := by
+/-- **Readers and writers together, whatever the read latch.**  Any number of threads, any mix of scans, lookups,
+    descents and writes with any rebalancing, on any trees, provided the shapes are well-formed — which with the shipped
+    read latch includes that no scan's leaf is the root.  (The order in which a rebalancing writer visits siblings, the
+    parent's neighbours and frontier pages is arbitrary here; it does not matter because every one of those latches is
+    taken under the write latch of the root, which a scan's iterator holds for reading during its whole life.) -/
+theorem reader_writer_deadlock_free_any_defects (D : Defects) (rootOf : Nat → Nat) (threads : List (List TreeOp))
+    (hwf : ∀ th ∈ threads, ∀ op ∈ th, op.wf D rootOf = true)
+    (s : State) (hr : Reachable D (init (threads.map threadProg)) s) : deadlocked D s = false := by
   apply guarded_no_deadlock (rootOf := rootOf) _ hr
   intro pr hpr
   obtain ⟨ops, hops, rfl⟩ := List.mem_map.1 hpr
   exact guarded_threadProg ops (hwf ops hops)
 
+/-- **Readers and writers together** under the latch protocol of the repaired code: every reachable state in which some
+    thread has work left has an enabled step — any number of threads, any trees (one-page tables included). -/
+theorem reader_writer_deadlock_free (rootOf : Nat → Nat) (threads : List (List TreeOp))
+    (hwf : ∀ th ∈ threads, ∀ op ∈ th, op.wf Defects.none rootOf = true)
+    (s : State) (hr : Reachable Defects.none (init (threads.map threadProg)) s) : deadlocked Defects.none s = false :=
+  reader_writer_deadlock_free_any_defects Defects.none rootOf threads hwf s hr
+
 /-- **Writers only.**  Any number of threads doing inserts / updates / removes with any rebalancing on any trees. -/
-theorem writers_only_deadlock_free (rootOf : Nat → Nat) (threads : List (List TreeOp))
-    (hw : ∀ th ∈ threads, ∀ op ∈ th, op.isWrite = true ∧ op.wf rootOf = true)
-    (s : State) (hr : Reachable (init (threads.map threadProg)) s) : deadlocked s = false :=
-  reader_writer_deadlock_free_multilevel rootOf threads (fun th hth op hop => (hw th hth op hop).2) s hr
+theorem writers_only_deadlock_free (D : Defects) (rootOf : Nat → Nat) (threads : List (List TreeOp))
+    (hw : ∀ th ∈ threads, ∀ op ∈ th, op.isWrite = true ∧ op.wf D rootOf = true)
+    (s : State) (hr : Reachable D (init (threads.map threadProg)) s) : deadlocked D s = false :=
+  reader_writer_deadlock_free_any_defects D rootOf threads (fun th hth op hop => (hw th hth op hop).2) s hr
 
 /-- the hypotheses are satisfiable by non-trivial values: a two-level tree (root 1; leaves 2, 3, 4; 5 a fresh page), a
     scan of all three leaves next to a writer that descends to leaf 3, borrows from the LEFT sibling 2, then loads
@@ -179,18 +189,23 @@ def exScan : TreeOp := .scan 1 [2] [(2, 3), (3, 3), (4, 2)]
 
 def exWrite : TreeOp := .write 1 [3] [.touch 2, .touch 4, .touch 2, .touch 3, .touch 4, .alloc, .touch 5, .free 4]
 
-example : exScan.wf exRoot = true ∧ exWrite.wf exRoot = true ∧ (TreeOp.search 1 [3]).wf exRoot = true := by decide
+example : exScan.wf { readLatchQueuesBehindWriter := true } exRoot = true ∧ exWrite.wf Defects.none exRoot = true ∧
+    (TreeOp.search 1 [3]).wf Defects.none exRoot = true := by decide
 
-theorem leaf_scan_vs_sibling_rebalance_no_deadlock (s : State)
-    (hr : Reachable (init ([[exScan, .search 1 [3]], [exWrite], [exWrite, exScan]].map threadProg)) s) :
-    deadlocked s = false :=
-  reader_writer_deadlock_free_multilevel exRoot _ (by decide) s hr
+/-- a scan of a one-page table is well-formed under the repaired latch protocol -/
+example : (TreeOp.scan 1 [] [(1, 4)]).wf Defects.none (fun _ => 1) = true := by decide
 
-theorem reachable_runSched {s0 : State} : ∀ (sched : List Nat) (s : State), Reachable s0 s → Reachable s0 (runSched s sched)
+theorem leaf_scan_vs_sibling_rebalance_no_deadlock (D : Defects) (s : State)
+    (hr : Reachable D (init ([[exScan, .search 1 [3]], [exWrite], [exWrite, exScan]].map threadProg)) s) :
+    deadlocked D s = false :=
+  reader_writer_deadlock_free_any_defects D exRoot _ (by cases D with | mk b => cases b <;> decide) s hr
+
+theorem reachable_runSched {D : Defects} {s0 : State} : ∀ (sched : List Nat) (s : State),
+    Reachable D s0 s → Reachable D s0 (runSched D s sched)
   | [], s, h => by simpa [runSched] using h
   | i :: is, s, h => by
     unfold runSched
-    cases hs : step s i with
+    cases hs : step D s i with
     | none => exact h
     | some s' => exact reachable_runSched is s' (Reachable.step h hs)
 
@@ -201,13 +216,20 @@ def rootScanProgs : List (List Instr) := [threadProg [.scan 1 [] [(1, 1)]], thre
     second accessor — parks behind the writer -/
 def rootScanSchedule : List Nat := [0, 0, 0, 0, 0, 0, 0, 0, 0, 1, 1, 1, 0, 0, 0]
 
-/-- **Witness.**  A scan of a one-page table next to one writer of that table reaches a state with no enabled step. -/
-theorem reader_writer_root_deadlock_witness :
-    ∃ s, Reachable (init rootScanProgs) s ∧ deadlocked s = true :=
-  ⟨runSched (init rootScanProgs) rootScanSchedule, reachable_runSched _ _ Reachable.init, by decide⟩
+/-- **Witness of the shipped defect.**  With a read latch that queues behind a parked writer, a scan of a one-page table
+    next to one writer of that table reaches a state with no enabled step. -/
+theorem readLatchQueuesBehindWriter_witness :
+    ∃ s, Reachable { readLatchQueuesBehindWriter := true } (init rootScanProgs) s ∧
+      deadlocked { readLatchQueuesBehindWriter := true } s = true :=
+  ⟨runSched _ (init rootScanProgs) rootScanSchedule, reachable_runSched _ _ Reachable.init, by decide⟩
 
-/-- the scan of a one-page table is exactly what `TreeOp.wf` excludes -/
-example : (TreeOp.scan 1 [] [(1, 1)]).wf (fun _ => 1) = false := by decide
+/-- the same two threads under the repaired protocol never deadlock (instance of `reader_writer_deadlock_free`) -/
+theorem rootScan_repaired_no_deadlock (s : State) (hr : Reachable Defects.none (init rootScanProgs) s) :
+    deadlocked Defects.none s = false :=
+  reader_writer_deadlock_free (fun _ => 1) [[.scan 1 [] [(1, 1)]], [.write 1 [] []]] (by decide) s hr
+
+/-- the scan of a one-page table is exactly what `TreeOp.wf` excludes under the defect -/
+example : (TreeOp.scan 1 [] [(1, 1)]).wf { readLatchQueuesBehindWriter := true } (fun _ => 1) = false := by decide
 
 /-- `Pager::flush` is not one of the shapes: it waits for latches while it holds the pager lock -/
 theorem flushProg_holds_pager_while_waiting : pagerOk false (flushProg [7]) = false := by decide
@@ -219,8 +241,8 @@ def flushSchedule : List Nat := [0, 0, 0, 0, 1, 1]
 
 /-- **Witness.**  `Database::flush` next to one writer reaches a state with no enabled step. -/
 theorem flush_writer_deadlock_witness :
-    ∃ s, Reachable (init flushProgs) s ∧ deadlocked s = true :=
-  ⟨runSched (init flushProgs) flushSchedule, reachable_runSched _ _ Reachable.init, by decide⟩
+    ∃ s, Reachable Defects.none (init flushProgs) s ∧ deadlocked Defects.none s = true :=
+  ⟨runSched _ (init flushProgs) flushSchedule, reachable_runSched _ _ Reachable.init, by decide⟩
 
 
 /-! ## Histories -/
